@@ -93,9 +93,11 @@ func b2i(b bool) int {
 	return 0
 }
 
-func (g *G) amCases() {
+func (g *G) amCases() { g.amCasesFor(amCfgs) }
+
+func (g *G) amCasesFor(cfgs []amCfg) {
 	for _, s := range suites {
-		for _, c := range amCfgs {
+		for _, c := range cfgs {
 			g.emit("AM", fmt.Sprintf("%04x %d %d none - 0 - 00", s, c.auth, b2i(c.cc)))
 			// the genuine transcript of this configuration
 			gen := runAM(s, c.auth, c.cc, tamper{dir: "none"})
@@ -152,7 +154,7 @@ func gen(seed uint64, tier string, o *hx.Out) {
 	for _, s := range []struct {
 		name string
 		f    func()
-	}{{"AS", g.asCases}, {"AC", g.acCases}, {"AM", g.amCases}, {"AN", g.anCases}, {"PA", g.paCases}, {"PD", g.pdCases}, {"AS/AC round 6", g.round6Cases}} {
+	}{{"AS", g.asCases}, {"AC", g.acCases}, {"AM", g.amCases}, {"AN", g.anCases}, {"PA", g.paCases}, {"PD", g.pdCases}, {"AS/AC round 6", g.round6Cases}, {"round 9 GM", g.round9GM}, {"round 9 TLS", g.round9TLS}} {
 		t0, n0 := time.Now(), g.id
 		s.f()
 		g.flush()
